@@ -156,7 +156,29 @@ macro_rules! set_case {
         }
         // ---- path 2: from_bytes of our own encoding with repeats
         let form = r.below(4);
-        let items: Vec<Item> = seq_bytes.iter().filter_map(|b| cbor::parse(b).ok()).collect();
+        // a repeat may arrive in another spelling of the same value (inner sets without tag 258, wide
+        // integer heads): it is still the element already held
+        let mut seen_b: Vec<&Vec<u8>> = vec![];
+        let mut respelled = false;
+        let items: Vec<Item> = seq_bytes
+            .iter()
+            .filter_map(|b| {
+                let it = cbor::parse(b).ok()?;
+                let repeat = seen_b.contains(&b);
+                seen_b.push(b);
+                if repeat && r.bool() {
+                    let mut changed = false;
+                    let it2 = respell(&it, r, &mut changed);
+                    respelled |= changed;
+                    Some(it2)
+                } else {
+                    Some(it)
+                }
+            })
+            .collect();
+        if respelled {
+            ctx.bucket("set.from_bytes-repeat-in-another-spelling");
+        }
         let arr = match form {
             0 => Item::tag(258, Item::arr(items)),
             1 => Item::arr(items),
@@ -180,6 +202,33 @@ macro_rules! set_case {
             Err(p) => ctx.violation(&format!("{}/from_bytes/{}", $name, p.sig()), json!({"bytes": hx(&enc)})),
         }
     }};
+}
+
+/// the same value in another CBOR spelling: tag 258 dropped from inner sets, unsigned heads widened
+fn respell(it: &Item, r: &mut Rng, changed: &mut bool) -> Item {
+    use vkit::cbor::V;
+    match &it.v {
+        V::Tag(258, inner) if r.bool() => {
+            *changed = true;
+            respell(inner, r, changed)
+        }
+        V::Tag(t, inner) => Item::tag(*t, respell(inner, r, changed)),
+        V::A(xs) => {
+            let mut out = Item::arr(xs.iter().map(|x| respell(x, r, changed)).collect());
+            out.indef = it.indef;
+            out
+        }
+        V::M(es) => {
+            let mut out = Item::map(es.iter().map(|(k, v)| (k.clone(), respell(v, r, changed))).collect());
+            out.indef = it.indef;
+            out
+        }
+        V::U(n) if r.below(6) == 0 && it.w < 8 => {
+            *changed = true;
+            Item::u(*n).with_width(8)
+        }
+        _ => it.clone(),
+    }
 }
 
 fn set_histories(ctx: &mut Ctx, r: &mut Rng, i: u64) {
